@@ -1,6 +1,22 @@
-(* The visibility function used by the executable attack / observer models.
-   PLACEHOLDER until the mask model of C10 (Grid/Mask.v) is merged: everything is visible, which
-   is exact for layouts without blocking agents. *)
+(* The visibility function used by the executable attack / observer models: the mask of
+   utils.create_grid_and_mask.  It is C10's integer specification `spec_visible` of the whole
+   mask, which Props/P_C10.v (C10_mask_exact, C10_code_meets_spec) proves equal to the transcribed
+   eight-case code `mask_fold mask_code` for every range, viewer and agent list:
+   vis s att R d = true  iff  no active blocking agent inside the window hides the window cell at
+   offset d from the agent att. *)
 From Coq Require Import ZArith List Bool.
 From Abm Require Import Grid.Grid Grid.Attack.
-Definition vis_model : vis_fn := fun _ _ _ _ => true.
+From Abm Require Grid.Mask.
+Open Scope Z_scope.
+
+Definition to_magent (a : arec) : Mask.agent :=
+  match a_pos a with
+  | Some (r, c) => Mask.mkAgent r c (a_active a) (a_blocking a)
+  | None => Mask.mkAgent 0 0 false false
+  end.
+
+Definition vis_model : vis_fn := fun s att R d =>
+  match att_pos s att with
+  | Some v => Mask.spec_visible R v (map to_magent (g_agents s)) d
+  | None => true
+  end.
